@@ -86,9 +86,10 @@ type c04Op struct {
 }
 
 type c04Input struct {
-	Mode string  `json:"mode"` // mgr | wallet
-	Seed string  `json:"seed"`
-	Ops  []c04Op `json:"ops"`
+	Mode  string  `json:"mode"` // mgr | wallet
+	Seed  string  `json:"seed"`
+	Brute bool    `json:"brute,omitempty"` // try to open every offset of the converted image with the old keys
+	Ops   []c04Op `json:"ops"`
 }
 
 // ----------------------------------------------------------------- output
@@ -130,6 +131,12 @@ type c04Residue struct {
 	LiveKinds         []string `json:"live_kinds,omitempty"`
 	FreeCiphertexts   int      `json:"free"` // remembered private ciphertexts still somewhere in the file image
 	OldParams         bool     `json:"old_params"`
+	// BruteOpens: number of offsets of the image at which a blob of a
+	// plausible length opens under the remembered private crypto key or
+	// master private key (-1: not run).  Finds ciphertexts the harness has
+	// never seen in a row.
+	BruteOpens    int `json:"brute_opens"`
+	BruteExpected int `json:"brute_expected"` // occurrences of remembered ciphertexts that open under those keys
 }
 
 type c04Case struct {
@@ -250,6 +257,8 @@ type run struct {
 	scopes    map[waddrmgr.KeyScope]waddrmgr.ScopeAddrSchema
 	accts     map[string]acctRec // "p:c:acct" -> info
 	impKeys   map[int]*btcec.PrivateKey
+	brute     bool
+	bruteDone bool
 }
 
 type acctRec struct {
@@ -792,6 +801,42 @@ func (r *run) residue(img []byte, rows []walked) *c04Residue {
 	for _, p := range r.oldParams {
 		if bytes.Contains(img, p[:64]) {
 			res.OldParams = true
+		}
+	}
+	res.BruteOpens = -1
+	if r.brute && !r.bruteDone {
+		r.bruteDone = true
+		res.BruteOpens = 0
+		lens := map[int]bool{32: true, 111: true}
+		for blob := range r.privBlobs {
+			lens[len(blob)-40] = true
+		}
+		keys := []*snacl.CryptoKey{r.sealKeys["cpriv"], r.sealKeys["mpriv"]}
+		for blob := range r.privBlobs {
+			for _, k := range keys {
+				if k == nil {
+					continue
+				}
+				if _, err := k.Decrypt([]byte(blob)); err == nil {
+					res.BruteExpected += bytes.Count(img, []byte(blob))
+					break
+				}
+			}
+		}
+		for o := 0; o+72 <= len(img); o++ {
+			for l := range lens {
+				if l < 0 || o+40+l > len(img) {
+					continue
+				}
+				for _, k := range keys {
+					if k == nil {
+						continue
+					}
+					if _, err := k.Decrypt(img[o : o+40+l]); err == nil {
+						res.BruteOpens++
+					}
+				}
+			}
 		}
 	}
 	return res
@@ -1463,6 +1508,7 @@ func runMgr(in c04Input) (c04Case, error) {
 		return cs, err
 	}
 	r.raw = raw
+	r.brute = in.Brute
 	r.db = proxydb.New(raw)
 	r.db.SetHooks(&proxydb.Hooks{AfterCommit: func(tx *proxydb.TxInfo) { r.commits++ }})
 
@@ -1523,6 +1569,12 @@ func runMgr(in c04Input) (c04Case, error) {
 				}
 				if o.Residue.OldParams {
 					r.tag("residue:old_master_params_in_free_pages")
+				}
+				if o.Residue.BruteOpens >= 0 {
+					r.tag("brute_force_open_scan")
+					if o.Residue.BruteOpens > o.Residue.BruteExpected {
+						r.tag("residue:private_ciphertext_never_seen_in_a_row")
+					}
 				}
 			}
 		}
@@ -1771,7 +1823,7 @@ func c04Systematic(seed []byte, taprootSecret bool) c04Input {
 		{K: "impscript", Scope: s84, ID: 13, SKind: "p2sh", Secret: true, Len: 33},
 		{K: "chpass", Private: false, PassOK: true}, {K: "convert"}, {K: "reopen"}, {K: "syncto", Height: 10008},
 	}...)
-	return c04Input{Mode: "mgr", Seed: hex.EncodeToString(seed), Ops: ops}
+	return c04Input{Mode: "mgr", Seed: hex.EncodeToString(seed), Brute: true, Ops: ops}
 }
 
 func main() {
@@ -1819,7 +1871,9 @@ func main() {
 			}
 		}
 		for i := 0; i < c.N; i++ {
-			if err := runOne(c04Gen(r, c.Tier)); err != nil {
+			in := c04Gen(r, c.Tier)
+			in.Brute = i%20 == 0
+			if err := runOne(in); err != nil {
 				return err
 			}
 		}
